@@ -465,16 +465,32 @@ class Run:
         self.notes = {}
         self.batches = []
         self.ignore_tags = None     # regex of failure tags that belong to another property's check
+        self.all_lines = []         # every op line sent to the harness (the CLI batch samples from it)
 
-    def batch(self, name, lines, flavour="asan", args=(), nontrivial=None, sample=3):
+    def cli_batch(self, name, lines, flavour="asan"):
+        """The same op lines answered by the command-line tools (tools/cli.py) instead of the in-process harness."""
+        return self.batch(name, lines, flavour, cli=True)
+
+    def batch(self, name, lines, flavour="asan", args=(), nontrivial=None, sample=3, cli=False):
         """Run one batch of op lines through harness (flavour) and judge; record coverage."""
         if not lines:
             return []
+        if not cli:
+            self.all_lines += [l for l in lines if len(l) < 6000]
         t = time.time()
-        d = cmrbuild.build(flavour)
+        d = cmrbuild.build(flavour, want_tools=cli)
         exe = os.path.join(d, "cmrh")
-        hargs = harness_args(flavour, args)
-        results = run_harness(exe, lines, hargs)
+        hargs = harness_args(flavour, args) if not cli else ["cli"]
+        if cli:
+            import cli as clilayer
+            env = dict(os.environ); env.update(SAN_ENV)
+            results = clilayer.run_cli(os.path.join(d, "tools"), lines, env, NPROC)
+            keep = [i for i, r in enumerate(results) if r != "skip-cli"]
+            lines = [lines[i] for i in keep]; results = [results[i] for i in keep]
+            if not lines:
+                return []
+        else:
+            results = run_harness(exe, lines, hargs)
         pairs = ["%s => %s" % (l, r) for l, r in zip(lines, results)]
         verdicts = run_model(pairs)
         known = load_known()
@@ -531,6 +547,13 @@ def shrink_line(line, flavour, args, still_fails):
 
 
 def judge_lines(lines, flavour, args):
+    if list(args) == ["cli"]:
+        import cli as clilayer
+        d = cmrbuild.build(flavour, want_tools=True)
+        env = dict(os.environ); env.update(SAN_ENV)
+        results = clilayer.run_cli(os.path.join(d, "tools"), lines, env, NPROC)
+        verdicts = run_model(["%s => %s" % (l, r) for l, r in zip(lines, results)])
+        return results, verdicts
     d = cmrbuild.build(flavour)
     exe = os.path.join(d, "cmrh")
     results = run_harness_chunk(exe, lines, list(args))
